@@ -124,6 +124,7 @@ type state struct {
 	blockedStreak uint64
 	deadlocks     int
 	spawned       int
+	timerJumps    int
 	nHarness      int
 	aborted       bool
 	// PCT
@@ -238,6 +239,26 @@ func LocalStep() uint64 { return s.lstep[s.cur] }
 //go:norace
 func LastSite(c int) int32 { return s.lastSite[c] }
 
+// ---- simulated clock: 1 µs per executed statement, plus injected forward jumps, plus
+// discrete-event jumps to the next timer when every client is blocked.
+var clockNs int64
+
+// TimerHook fires due timers and returns the earliest pending deadline (0: none).
+var TimerHook func() int64
+
+//go:norace
+func ClockNow() int64 { return clockNs }
+
+//go:norace
+func ClockJump(ns int64) {
+	if ns > 0 {
+		clockNs += ns
+	}
+}
+
+//go:norace
+func ClockReset() { clockNs = 0 }
+
 var stampSeq uint64
 
 // Stamp returns the next value of a global event sequence number. Execution is
@@ -289,6 +310,7 @@ func SetNoPreempt(p *int) { noPreempt = p }
 //
 //go:norace
 func Yield(site int) {
+	clockNs += 1000
 	if !s.active {
 		idleSteps++
 		if site != -4 {
@@ -443,9 +465,19 @@ func BlockedYield() {
 	s.blockedStreak++
 	if s.blockedStreak > uint64(2*s.nAlive+2) {
 		s.blockedStreak = 0
+		if TimerHook != nil {
+			if nx := TimerHook(); nx > clockNs {
+				// nobody can run, but a timer is pending: jump the clock to it
+				clockNs = nx
+				TimerHook()
+				s.timerJumps++
+				goto pass
+			}
+		}
 		s.deadlocks++
 		panic(StepCapExceeded{})
 	}
+pass:
 	if s.nAlive < 2 {
 		return
 	}
@@ -706,6 +738,7 @@ func setup(cfg *Config, n int) {
 	s.blockedStreak = 0
 	s.deadlocks = 0
 	s.spawned = 0
+	s.timerJumps = 0
 	s.aborted = false
 	s.done.w = 0
 	for i := 0; i < MaxClients; i++ {
